@@ -21,7 +21,7 @@ PROPERTY = 'C06'
 LEAN_TARGETS = ['PxProofs.C06']
 THEOREMS = [
     'Px.First.C06_total', 'Px.First.C06_exclusive', 'Px.First.C06_trace', 'Px.First.C06_reject_stops_reading',
-    'Px.First.C06_crash_escapes', 'Px.ParseFuel.C06_parse_fuel', 'Px.ParseFuel.C06_former_hangs_terminate',
+    'Px.First.C06_crash_escapes', 'Px.First.C06_empty_method_rejected', 'Px.First.C06_web_bad_path_rejected', 'Px.ParseFuel.C06_parse_fuel', 'Px.ParseFuel.C06_former_hangs_terminate',
     'Px.Wf.C06_canned', 'Px.Wf.C06_canned_built', 'Px.Wf.C06_builders', 'Px.Wf.C06_builders_ok',
     'Px.Wf.C06_builders_redirect', 'Px.Wf.C06_builders_rejected', 'Px.Wf.C06_builders_ws',
     'Px.Wf.C06_builder_injection_witness', 'Px.Wf.C06_ws_handshake_cl_witness',
